@@ -304,6 +304,24 @@ def infixmap(rep, meta, sfx):
             r.violation(nm, where(fn["body"]), "no infix arm for %s" % nm)
 
 
+def match_value_is_pushed(fn, m):
+    """Is the value of match expression m handed to a `push` (directly, or through the local it initialises)?"""
+    ctx = hirq.Ctx(fn)
+    par = ctx.parent.get(id(m))
+    hops = 0
+    while par is not None and hops < 4:
+        pn, pk, pi = par
+        if kind(pn) == "MethodCall" and pn["m"] == "push" and pk == "args":
+            return True
+        if pn.get("k") == "Let" and pk == "init" and pn["pat"].get("k") == "PBind":
+            lid = pn["pat"]["id"]
+            return any(kind(x) == "MethodCall" and x["m"] == "push" and x["args"] and hirq.local_id(x["args"][0]) == lid
+                       for x in walk(fn["body"]))
+        par = ctx.parent.get(id(pn))
+        hops += 1
+    return False
+
+
 def eval_len_cond(c, n, lenvar_pred):
     """Truth of condition c when the inspected string has length n."""
     c = peel(c)
@@ -374,6 +392,11 @@ def escapes(rep, meta, g, sfx):
         if p.get("k") == "PLit" and p.get("lk") == "char":
             pushed = [hirq.lit_value(x["args"][0]) for x in walk(arm["body"]) if kind(x) == "MethodCall" and x["m"] == "push"
                       and hirq.lit_value(x["args"][0]) is not None]
+            if not pushed and not any(kind(x) == "MethodCall" and x["m"] == "push" for x in walk(arm["body"])):
+                # the arm yields the decoded character as the value of the match; it is pushed once, after the match
+                vals = [hirq.lit_value(peel(v)) for v in hirq.tail_leaves(arm["body"])]
+                if vals and all(isinstance(v, str) for v in vals) and match_value_is_pushed(fn, m):
+                    pushed = vals
             table[p["v"]] = pushed
             armof[p["v"]] = arm
     for ch in singles:
